@@ -11,12 +11,17 @@ theorem hinv_move {m : Nat} {s t : State} (hI : HInv m s) (i : Nat) (x : Caller)
     (hx : t.callers[i]? = some x)
     (hmax : t.max = s.max) (htot : t.total = s.total)
     (hconns : t.conns.map (·.dead) = s.conns.map (·.dead))
+    (hrt : nReserved t = nReserved s) (hxr : x.pc ≠ .reserved) (hpr : p ≠ .reserved)
     (dr : Nat → Nat)
     (hdr : ∀ (c : Nat) (cn : Conn), s.conns[c]? = some cn → cn.dead = false → dr c = 0)
     (hh : ∀ c, holders t c + (if heldBy p = some c then 1 else 0) + dr c
       = holders s c + (if heldBy x.pc = some c then 1 else 0)) :
     HInv m (setPc t i x p) := by
-  apply hinv_of_le (s' := setPc t i x p) hI hmax htot hconns
+  have hres : nReserved (setPc t i x p) = nReserved s := by
+    have := nReserved_setPc t i x p hx
+    simp [hxr, hpr] at this
+    omega
+  apply hinv_of_le (s' := setPc t i x p) hI hmax htot hconns hres
   · intro c
     have e := holders_setPc t i x p hx c
     have := hh c
@@ -49,13 +54,14 @@ theorem isDead_true {s : State} {d : Nat} (h : isDead s d = true) (cn : Conn) (h
 theorem hinv_handOut {m : Nat} {cfg : Cfg} (hg : cfg.handoutChecksDead = true) {s t : State}
     (hI : HInv m s) (i : Nat) (x : Caller) (d : Nat) (hx : t.callers[i]? = some x)
     (hmax : t.max = s.max) (htot : t.total = s.total) (hconns : t.conns = s.conns)
+    (hrt : nReserved t = nReserved s) (hxr : x.pc ≠ .reserved)
     (hh : ∀ c, holders t c + (if d = c then 1 else 0)
       = holders s c + (if heldBy x.pc = some c then 1 else 0)) :
     HInv m (handOut cfg t i x d) := by
   unfold handOut
   by_cases hd : isDead t d = true
   · simp only [hg, hd, and_self, if_true]
-    apply hinv_move hI i x .start hx hmax htot (by rw [hconns]) (fun c => if d = c then 1 else 0)
+    apply hinv_move hI i x .start hx hmax htot (by rw [hconns]) hrt hxr (by simp) (fun c => if d = c then 1 else 0)
     · intro c cn hcn hdd
       by_cases hdc : d = c
       · subst hdc
@@ -68,7 +74,7 @@ theorem hinv_handOut {m : Nat} {cfg : Cfg} (hg : cfg.handoutChecksDead = true) {
       omega
   · have hd' : isDead t d = false := by simpa using hd
     simp only [hd', Bool.false_eq_true, and_false, if_false]
-    apply hinv_move hI i x (.using d) hx hmax htot (by rw [hconns]) (fun _ => 0)
+    apply hinv_move hI i x (.using d) hx hmax htot (by rw [hconns]) hrt hxr (by simp) (fun _ => 0)
     · intro _ _ _ _; rfl
     · intro c
       have := hh c
